@@ -31,7 +31,9 @@ def make(rng, i, samplers, cmp_samplers, allow_int_gather):
     n = rng.choice(["r%d", "r%d", "resBuf%d", "R%d", "colorTexture%d", "_r%d", "SHADOW%d", "r_%d_map"]) % i
     k = rng.randrange(9)
     if k == 0:
-        t = rng.choice(["vec4<f32>", "f32", "mat4x4<f32>", "UB", "array<vec4<f32>, 4>", "vec3<u32>", "mat2x2<f32>"])
+        t = rng.choice(["vec4<f32>", "f32", "mat4x4<f32>", "UB", "array<vec4<f32>, 4>", "vec3<u32>", "mat2x2<f32>",
+                        # types whose WGSL size is not the sum of their components (padded columns / elements)
+                        "mat3x3<f32>", "mat4x3<f32>", "mat2x3<f32>", "array<vec3<f32>, 3>", "vec3<f32>"])
         return Res(n, "var<uniform> %s: %s;" % (n, t), ["let u_%d = %s;" % (i, n)], tag="uniform")
     if k == 1:
         t = rng.choice(["array<f32>", "array<vec4<u32>>", "SB", "array<UB, 3>", "u32"])
